@@ -114,6 +114,24 @@ CHECKS.update({
     ),
 })
 
+CHECKS.update({
+    "C20": dict(
+        level="exploration", engine="bex",
+        text="Every start/size/count grid (start 0,-1.5,10 x size 1,0.5,2 x every count 0..64 for single records; counts 0,1,2,3,64 for lists) is combined with "
+             "every list of <= 3 (thorough <= 4) records whose x lies on every bin edge, edge +- size/2, edge +- 1 ulp, far outside, 0, -0, +-2^62..2^70, +-1e30, "
+             "+-MaxFloat64 (weights 1, 0.5, -2), in one and two dimensions (all 45x45 axis pairs for single records), evaluated through value.New().Generate on the "
+             "real binning/binning2d/collectBinning and compared with a reference histogram, the exact weight sum and the exact interval description of every bin. "
+             "Additivity is checked for every list against every splitting into 1 part, 2 parts (all subsets) and 3 contiguous parts, empty parts included. "
+             "Exhaustive within these bounds (4.3 M cases quick, about 115 M thorough).",
+        note="Trusted: the reference bin index (comparisons of x with edges start+k*size computed with big.Rat and asserted exactly representable), Go float64 "
+             "addition of dyadic weights. +-1-ulp neighbours of an edge are judged only when (x-start)/size is exact in float64 (others counted in "
+             "unspecified_excluded); the label str is judged up to the decimals it displays; NaN/Inf coordinates and size <= 0 are outside the property; "
+             "Size()/iteration of the bin description maps belongs to C13.",
+        technique="bounded-exhaustive enumeration of grids x record lists x list splittings against an exact interval-definition oracle",
+        design_ref="DESIGN.md §5 C20",
+    ),
+})
+
 NOT_YET = "check not built yet in this session (planned, see DESIGN.md §9); not claimed until its machinery exists"
 
 def main():
